@@ -104,6 +104,14 @@ func (s *vspSched) emit(format string, a ...any) {
 	s.events++
 }
 
+// real channel names are "<base>~<scenario number>" (the node is reused across scenarios)
+func vspBase(ch string) string {
+	if i := strings.IndexByte(ch, '~'); i >= 0 {
+		return ch[:i]
+	}
+	return ch
+}
+
 func (s *vspSched) current() *vspActor {
 	gid := vspGoid()
 	a := s.byGoid[gid]
@@ -123,6 +131,7 @@ func (s *vspSched) gate(tag, ch string, failable bool, effect func(fail bool)) b
 	s.mu.Lock()
 	a := s.current()
 	fail := failable && (a.spec.Fail == tag || (tag == "onsub" && a.spec.Fail == "onsubdisc"))
+	ch = vspBase(ch)
 	if ch == "" {
 		ch = "-"
 	}
@@ -160,7 +169,7 @@ func (s *vspSched) event(tag, ch string) bool {
 	if fail {
 		o = "fail"
 	}
-	s.emit("ev %s %s %s %s", a.spec.ID, tag, ch, o)
+	s.emit("ev %s %s %s %s", a.spec.ID, tag, vspBase(ch), o)
 	return fail
 }
 
@@ -182,21 +191,27 @@ var vspBlockedStates = map[string]bool{
 }
 
 type vspGoInfo struct {
-	state   string
-	inClose bool
+	state     string
+	inClose   bool
+	createdBy int64
 }
 
+var (
+	vspStackMu  sync.Mutex
+	vspStackBuf = make([]byte, 1<<18)
+)
+
 func vspGoroutines() map[int64]vspGoInfo {
-	size := 1 << 18
+	vspStackMu.Lock()
+	defer vspStackMu.Unlock()
 	var buf []byte
 	for {
-		buf = make([]byte, size)
-		n := runtime.Stack(buf, true)
-		if n < size {
-			buf = buf[:n]
+		n := runtime.Stack(vspStackBuf, true)
+		if n < len(vspStackBuf) {
+			buf = vspStackBuf[:n]
 			break
 		}
-		size *= 2
+		vspStackBuf = make([]byte, 2*len(vspStackBuf))
 	}
 	res := map[int64]vspGoInfo{}
 	for _, blk := range bytes.Split(buf, []byte("\n\n")) {
@@ -226,7 +241,15 @@ func vspGoroutines() map[int64]vspGoInfo {
 				st = st[:c]
 			}
 		}
-		res[id] = vspGoInfo{state: st, inClose: bytes.Contains(blk, []byte("centrifuge.(*Client).close("))}
+		var creator int64
+		if i := bytes.LastIndex(blk, []byte(" in goroutine ")); i >= 0 && bytes.Contains(blk, []byte("created by github.com/centrifugal/centrifuge.(*Client).")) {
+			tail := blk[i+len(" in goroutine "):]
+			if nl := bytes.IndexByte(tail, '\n'); nl >= 0 {
+				tail = tail[:nl]
+			}
+			creator, _ = strconv.ParseInt(string(bytes.TrimSpace(tail)), 10, 64)
+		}
+		res[id] = vspGoInfo{state: st, inClose: bytes.Contains(blk, []byte("centrifuge.(*Client).close(")), createdBy: creator}
 	}
 	return res
 }
@@ -265,13 +288,20 @@ func (s *vspSched) quiescent() (bool, bool, bool) {
 			}
 		}
 	}
-	for id, gi := range gs {
-		if gi.inClose && !tracked[id] {
-			closeAlive = true
-			if !vspBlockedStates[gi.state] {
-				return false, false, false
+	// goroutines started by the code under test from one of our goroutines (`go c.close(...)`), whether
+	// they already run close() or have not been scheduled yet
+	for changed := true; changed; {
+		changed = false
+		for id, gi := range gs {
+			if !tracked[id] && gi.createdBy != 0 && tracked[gi.createdBy] {
+				tracked[id] = true
+				changed = true
+				closeAlive = true
+				if !vspBlockedStates[gi.state] {
+					return false, false, false
+				}
+				blocked = true
 			}
-			blocked = true
 		}
 	}
 	return true, blocked, closeAlive
@@ -300,19 +330,36 @@ func (s *vspSched) waitQuiescent() (blocked bool, closeAlive bool, err error) {
 
 // ---------------------------------------------------------------------------------- wrappers
 
+// vspWorld is one Node with gate-instrumented Broker / PresenceManager / handlers, reused for
+// many scenarios (node construction costs ~40 ms).  Every scenario gets its own Client, scheduler
+// and channel names ("a~17"), so nothing of an earlier scenario can be confused with the current one.
+type vspWorld struct {
+	node   *Node
+	broker *vspBroker
+	pres   *vspPresence
+	mu     sync.Mutex
+	env    *vspEnv
+	seq    int
+}
+
+func (w *vspWorld) cur() *vspEnv {
+	w.mu.Lock()
+	defer w.mu.Unlock()
+	return w.env
+}
+
 type vspBroker struct {
 	inner *MemoryBroker
-	s     *vspSched
-	mu    sync.Mutex
-	log   []string
+	w     *vspWorld
 }
 
 func (b *vspBroker) RegisterBrokerEventHandler(h BrokerEventHandler) error {
 	return b.inner.RegisterBrokerEventHandler(h)
 }
 func (b *vspBroker) Subscribe(chs ...string) error {
+	e := b.w.cur()
 	for _, ch := range chs {
-		if b.s.event("bsub", ch) {
+		if e != nil && e.s.event("bsub", ch) {
 			return fmt.Errorf("verif: injected broker subscribe failure")
 		}
 	}
@@ -323,21 +370,29 @@ func (b *vspBroker) Publish(ch string, data []byte, opts PublishOptions) (Publis
 	return b.inner.Publish(ch, data, opts)
 }
 func (b *vspBroker) PublishJoin(ch string, info *ClientInfo) error {
+	e := b.w.cur()
+	if e == nil {
+		return b.inner.PublishJoin(ch, info)
+	}
 	var err error
-	b.s.gate("join", ch, false, func(bool) {
-		b.mu.Lock()
-		b.log = append(b.log, "J"+ch)
-		b.mu.Unlock()
+	e.s.gate("join", ch, false, func(bool) {
+		e.cbMu.Lock()
+		e.blog = append(e.blog, "J"+vspBase(ch))
+		e.cbMu.Unlock()
 		err = b.inner.PublishJoin(ch, info)
 	})
 	return err
 }
 func (b *vspBroker) PublishLeave(ch string, info *ClientInfo) error {
+	e := b.w.cur()
+	if e == nil {
+		return b.inner.PublishLeave(ch, info)
+	}
 	var err error
-	b.s.gate("leave", ch, false, func(bool) {
-		b.mu.Lock()
-		b.log = append(b.log, "L"+ch)
-		b.mu.Unlock()
+	e.s.gate("leave", ch, false, func(bool) {
+		e.cbMu.Lock()
+		e.blog = append(e.blog, "L"+vspBase(ch))
+		e.cbMu.Unlock()
 		err = b.inner.PublishLeave(ch, info)
 	})
 	return err
@@ -349,14 +404,18 @@ func (b *vspBroker) RemoveHistory(ch string) error { return b.inner.RemoveHistor
 
 type vspPresence struct {
 	inner *MemoryPresenceManager
-	s     *vspSched
+	w     *vspWorld
 }
 
 func (p *vspPresence) Presence(ch string) (map[string]*ClientInfo, error) { return p.inner.Presence(ch) }
 func (p *vspPresence) PresenceStats(ch string) (PresenceStats, error)     { return p.inner.PresenceStats(ch) }
 func (p *vspPresence) AddPresence(ch string, clientID string, info *ClientInfo) error {
+	e := p.w.cur()
+	if e == nil {
+		return p.inner.AddPresence(ch, clientID, info)
+	}
 	var err error
-	p.s.gate("presadd", ch, true, func(fail bool) {
+	e.s.gate("presadd", ch, true, func(fail bool) {
 		if fail {
 			err = fmt.Errorf("verif: injected presence add failure")
 			return
@@ -366,8 +425,12 @@ func (p *vspPresence) AddPresence(ch string, clientID string, info *ClientInfo) 
 	return err
 }
 func (p *vspPresence) RemovePresence(ch string, clientID string, userID string) error {
+	e := p.w.cur()
+	if e == nil {
+		return p.inner.RemovePresence(ch, clientID, userID)
+	}
 	var err error
-	p.s.gate("presrm", ch, false, func(bool) {
+	e.s.gate("presrm", ch, false, func(bool) {
 		err = p.inner.RemovePresence(ch, clientID, userID)
 	})
 	return err
@@ -429,27 +492,112 @@ func (t *vspTransport) count(needle string) int {
 	return bytes.Count(t.data, []byte(needle))
 }
 
+func vspNewWorld() (*vspWorld, error) {
+	w := &vspWorld{}
+	registry := prometheus.NewRegistry()
+	node, err := New(Config{
+		LogLevel: LogLevelInfo,
+		LogHandler: func(entry LogEntry) {
+			if entry.Message == "timeout waiting for subscribe to finish" {
+				if e := w.cur(); e != nil {
+					ch, _ := entry.Fields["channel"].(string)
+					e.s.gate("tmolog", ch, false, nil)
+				}
+			}
+		},
+		Metrics: MetricsConfig{RegistererGatherer: registry},
+	})
+	if err != nil {
+		return nil, err
+	}
+	w.node = node
+	w.broker = &vspBroker{inner: node.broker.(*MemoryBroker), w: w}
+	node.SetBroker(w.broker)
+	w.pres = &vspPresence{inner: node.presenceManager.(*MemoryPresenceManager), w: w}
+	node.SetPresenceManager(w.pres)
+	node.OnConnecting(func(ctx context.Context, ev ConnectEvent) (ConnectReply, error) {
+		return ConnectReply{Credentials: &Credentials{UserID: "u1"}}, nil
+	})
+	node.OnConnect(func(c *Client) {
+		c.OnSubscribe(func(ev SubscribeEvent, cb SubscribeCallback) {
+			e := w.cur()
+			if e == nil {
+				cb(SubscribeReply{}, ErrorNotAvailable)
+				return
+			}
+			s := e.s
+			p, j := s.actorOpts()
+			s.mu.Lock()
+			a := s.byGoid[vspGoid()]
+			s.mu.Unlock()
+			s.gate("onsub", ev.Channel, true, nil)
+			var cerr error
+			if a != nil && a.spec.Fail == "onsub" {
+				cerr = ErrorPermissionDenied
+			} else if a != nil && a.spec.Fail == "onsubdisc" {
+				cerr = DisconnectInvalidToken
+			}
+			cb(SubscribeReply{Options: SubscribeOptions{EmitPresence: p, EmitJoinLeave: j, PushJoinLeave: j}}, cerr)
+		})
+		c.OnUnsubscribe(func(ev UnsubscribeEvent) {
+			e := w.cur()
+			if e == nil {
+				return
+			}
+			e.s.gate("onunsub", ev.Channel, false, func(bool) {
+				e.cbMu.Lock()
+				e.onUnsub[vspBase(ev.Channel)]++
+				e.cbMu.Unlock()
+			})
+		})
+		c.OnDisconnect(func(ev DisconnectEvent) {
+			e := w.cur()
+			if e == nil {
+				return
+			}
+			e.s.gate("ondisc", "", false, func(bool) {
+				e.cbMu.Lock()
+				e.onDisc++
+				e.cbMu.Unlock()
+			})
+		})
+	})
+	if err := node.Run(); err != nil {
+		return nil, err
+	}
+	return w, nil
+}
+
 // ---------------------------------------------------------------------------------- scenario
 
 type vspEnv struct {
 	s        *vspSched
+	w        *vspWorld
 	node     *Node
 	client   *Client
 	tr       *vspTransport
-	broker   *vspBroker
-	pres     *vspPresence
-	chans    []string
+	chans    []string // base names
+	suffix   string
 	onUnsub  map[string]int
 	onDisc   int
+	blog     []string
 	cbMu     sync.Mutex
 	holding  bool
 	baseConn float64
 	baseSub  float64
 }
 
+func (e *vspEnv) real(ch string) string {
+	if ch == "" {
+		return ""
+	}
+	return ch + e.suffix
+}
+
 func vspGaugeSum(g *prometheus.GaugeVec) float64 {
-	ch := make(chan prometheus.Metric, 64)
-	go func() { g.Collect(ch); close(ch) }()
+	ch := make(chan prometheus.Metric, 256)
+	g.Collect(ch)
+	close(ch)
 	var sum float64
 	for m := range ch {
 		var d dto.Metric
@@ -476,7 +624,7 @@ func (e *vspEnv) obs() string {
 		ents[ch] = ent{cc.subGen, cc.flags, cc.subscribingCh != nil}
 		known := false
 		for _, k := range e.chans {
-			if k == ch {
+			if e.real(k) == ch {
 				known = true
 			}
 		}
@@ -495,8 +643,9 @@ func (e *vspEnv) obs() string {
 	}
 	fmt.Fprintf(&sb, "st=%d reg=%d cg=%d sg=%d", st, r, int(vspGaugeSum(e.node.metrics.connectionsInflight)-e.baseConn),
 		int(vspGaugeSum(e.node.metrics.subscriptionsInflight)-e.baseSub))
-	for _, ch := range e.chans {
-		sb.WriteString(" " + ch + ":")
+	for _, base := range e.chans {
+		ch := e.real(base)
+		sb.WriteString(" " + base + ":")
 		if en, ok := ents[ch]; ok {
 			fmt.Fprintf(&sb, "g%d", en.gen)
 			if channelHasFlag(en.flags, flagSubscribed) {
@@ -530,16 +679,16 @@ func (e *vspEnv) obs() string {
 		} else {
 			sb.WriteString(",h-")
 		}
-		pr, _ := e.pres.inner.Presence(ch)
+		pr, _ := e.w.pres.inner.Presence(ch)
 		if _, ok := pr[c.uid]; ok {
 			sb.WriteString(",p1")
 		} else {
 			sb.WriteString(",p0")
 		}
 	}
-	e.broker.mu.Lock()
-	sb.WriteString(" log=" + strings.Join(e.broker.log, ","))
-	e.broker.mu.Unlock()
+	e.cbMu.Lock()
+	sb.WriteString(" log=" + strings.Join(e.blog, ","))
+	e.cbMu.Unlock()
 	if extra > 0 {
 		fmt.Fprintf(&sb, " extrachans=%d", extra)
 	}
@@ -560,38 +709,29 @@ func (e *vspEnv) runActor(a *vspActor) {
 			}
 		}()
 		c := e.client
+		ch := e.real(a.spec.Ch)
+		rw := &replyWriter{write: func(rep *protocol.Reply) {
+			if rep.Error != nil {
+				s.gate("replyerr", "", false, nil)
+			} else {
+				s.gate("reply", "", false, nil)
+			}
+		}}
 		switch a.spec.Kind {
 		case "csub":
-			rw := &replyWriter{write: func(rep *protocol.Reply) {
-				if rep.Error != nil {
-					s.gate("replyerr", "", false, nil)
-				} else {
-					s.gate("reply", "", false, nil)
-				}
-			}}
-			err := c.handleSubscribe(&protocol.SubscribeRequest{Channel: a.spec.Ch}, &protocol.Command{Id: 7}, time.Now(), rw)
-			if err != nil {
+			if err := c.handleSubscribe(&protocol.SubscribeRequest{Channel: ch}, &protocol.Command{Id: 7}, time.Now(), rw); err != nil {
 				ret = "err"
 			}
 		case "ssub":
-			err := c.Subscribe(a.spec.Ch, WithEmitPresence(a.spec.P != 0), WithEmitJoinLeave(a.spec.J != 0), WithPushJoinLeave(a.spec.J != 0))
-			if err != nil {
+			if err := c.Subscribe(ch, WithEmitPresence(a.spec.P != 0), WithEmitJoinLeave(a.spec.J != 0), WithPushJoinLeave(a.spec.J != 0)); err != nil {
 				ret = "err"
 			}
 		case "cunsub":
-			rw := &replyWriter{write: func(rep *protocol.Reply) {
-				if rep.Error != nil {
-					s.gate("replyerr", "", false, nil)
-				} else {
-					s.gate("reply", "", false, nil)
-				}
-			}}
-			err := c.handleUnsubscribe(&protocol.UnsubscribeRequest{Channel: a.spec.Ch}, &protocol.Command{Id: 8}, time.Now(), rw)
-			if err != nil {
+			if err := c.handleUnsubscribe(&protocol.UnsubscribeRequest{Channel: ch}, &protocol.Command{Id: 8}, time.Now(), rw); err != nil {
 				ret = "err"
 			}
 		case "sunsub":
-			c.Unsubscribe(a.spec.Ch)
+			c.Unsubscribe(ch)
 		case "close":
 			_ = c.close(DisconnectForceNoReconnect)
 		}
@@ -602,10 +742,22 @@ func (e *vspEnv) runActor(a *vspActor) {
 	s.mu.Unlock()
 }
 
+var vspTheWorld *vspWorld
+
 func vspRunScenario(line string) (out string) {
 	defer func() {
 		if r := recover(); r != nil {
 			out = fmt.Sprintf("HARNESS-ERROR panic %v", r)
+		}
+		if strings.HasPrefix(out, "HARNESS-ERROR") && vspTheWorld != nil {
+			// never reuse a node after a harness problem
+			w := vspTheWorld
+			vspTheWorld = nil
+			go func() {
+				ctx, cancel := context.WithTimeout(context.Background(), 2*time.Second)
+				_ = w.node.Shutdown(ctx)
+				cancel()
+			}()
 		}
 	}()
 	if !strings.HasPrefix(line, "sched ") {
@@ -615,63 +767,21 @@ func vspRunScenario(line string) (out string) {
 	if err := json.Unmarshal([]byte(line[len("sched "):]), &sc); err != nil {
 		return "bad-op"
 	}
+	if vspTheWorld == nil {
+		w, err := vspNewWorld()
+		if err != nil {
+			return "HARNESS-ERROR new node: " + err.Error()
+		}
+		vspTheWorld = w
+	}
+	w := vspTheWorld
+	w.seq++
+	node := w.node
 	s := &vspSched{byGoid: map[int64]*vspActor{}, freeRun: true}
-	e := &vspEnv{s: s, chans: sc.Chans, onUnsub: map[string]int{}}
-	registry := prometheus.NewRegistry()
-	node, err := New(Config{
-		LogLevel: LogLevelInfo,
-		LogHandler: func(entry LogEntry) {
-			if entry.Message == "timeout waiting for subscribe to finish" {
-				ch, _ := entry.Fields["channel"].(string)
-				s.gate("tmolog", ch, false, nil)
-			}
-		},
-		Metrics: MetricsConfig{RegistererGatherer: registry},
-	})
-	if err != nil {
-		return "HARNESS-ERROR new node: " + err.Error()
-	}
-	e.node = node
-	e.broker = &vspBroker{inner: node.broker.(*MemoryBroker), s: s}
-	node.SetBroker(e.broker)
-	e.pres = &vspPresence{inner: node.presenceManager.(*MemoryPresenceManager), s: s}
-	node.SetPresenceManager(e.pres)
-	node.OnConnecting(func(ctx context.Context, ev ConnectEvent) (ConnectReply, error) {
-		return ConnectReply{Credentials: &Credentials{UserID: "u1"}}, nil
-	})
-	node.OnConnect(func(c *Client) {
-		c.OnSubscribe(func(ev SubscribeEvent, cb SubscribeCallback) {
-			p, j := s.actorOpts()
-			s.mu.Lock()
-			a := s.byGoid[vspGoid()]
-			s.mu.Unlock()
-			s.gate("onsub", ev.Channel, true, nil)
-			var cerr error
-			if a != nil && a.spec.Fail == "onsub" {
-				cerr = ErrorPermissionDenied
-			} else if a != nil && a.spec.Fail == "onsubdisc" {
-				cerr = DisconnectInvalidToken
-			}
-			cb(SubscribeReply{Options: SubscribeOptions{EmitPresence: p, EmitJoinLeave: j, PushJoinLeave: j}}, cerr)
-		})
-		c.OnUnsubscribe(func(ev UnsubscribeEvent) {
-			s.gate("onunsub", ev.Channel, false, func(bool) {
-				e.cbMu.Lock()
-				e.onUnsub[ev.Channel]++
-				e.cbMu.Unlock()
-			})
-		})
-		c.OnDisconnect(func(ev DisconnectEvent) {
-			s.gate("ondisc", "", false, func(bool) {
-				e.cbMu.Lock()
-				e.onDisc++
-				e.cbMu.Unlock()
-			})
-		})
-	})
-	if err := node.Run(); err != nil {
-		return "HARNESS-ERROR run node: " + err.Error()
-	}
+	e := &vspEnv{s: s, w: w, node: node, chans: sc.Chans, suffix: "~" + strconv.Itoa(w.seq), onUnsub: map[string]int{}}
+	w.mu.Lock()
+	w.env = e
+	w.mu.Unlock()
 	defer func() {
 		s.mu.Lock()
 		s.freeRun = true
@@ -688,9 +798,12 @@ func vspRunScenario(line string) (out string) {
 			e.client.connectMu.Unlock()
 			e.holding = false
 		}
-		ctx, cancel := context.WithTimeout(context.Background(), 2*time.Second)
-		_ = node.Shutdown(ctx)
-		cancel()
+		if e.client != nil {
+			_ = e.client.close(DisconnectForceNoReconnect)
+		}
+		w.mu.Lock()
+		w.env = nil
+		w.mu.Unlock()
 	}()
 	e.baseConn = vspGaugeSum(node.metrics.connectionsInflight)
 	e.baseSub = vspGaugeSum(node.metrics.subscriptionsInflight)
@@ -702,7 +815,7 @@ func vspRunScenario(line string) (out string) {
 		return "HARNESS-ERROR new client: " + err.Error()
 	}
 	e.client = client
-	// connect (free-run: gates pass straight through, nothing is recorded before the scenario starts)
+	// connect (free-run: gates pass straight through; nothing is recorded before the scenario starts)
 	if err := client.connectCmd(&protocol.ConnectRequest{}, &protocol.Command{Id: 1}, time.Now(), &replyWriter{write: func(*protocol.Reply) {}}); err != nil {
 		return "HARNESS-ERROR connect: " + err.Error()
 	}
@@ -761,8 +874,8 @@ func vspRunScenario(line string) (out string) {
 		s.mu.Lock()
 		ev0 := s.events
 		s.mu.Unlock()
-		deadline := time.Now().Add(8 * time.Second)
-		for time.Now().Before(deadline) {
+		deadline := time.Now().Add(9 * time.Second)
+		for i := 0; time.Now().Before(deadline); i++ {
 			time.Sleep(2 * time.Millisecond)
 			s.mu.Lock()
 			ev := s.events
@@ -770,8 +883,10 @@ func vspRunScenario(line string) (out string) {
 			if ev != ev0 {
 				return true
 			}
-			if q, b, c := s.quiescent(); q && !b && !c {
-				return true // nothing is blocked any more
+			if i%50 == 49 {
+				if q, b, c := s.quiescent(); q && !b && !c {
+					return true // nothing is blocked any more
+				}
 			}
 		}
 		return false
@@ -789,19 +904,26 @@ func vspRunScenario(line string) (out string) {
 		}
 		return true
 	}
+	unhold := func() {
+		if e.holding {
+			s.mu.Lock()
+			s.emit("unhold")
+			s.mu.Unlock()
+			e.client.connectMu.Unlock()
+			e.holding = false
+		}
+	}
 	step := func(entry string) error {
-		blocked, closeAlive, err := s.waitQuiescent()
+		blocked, _, err := s.waitQuiescent()
 		if err != nil {
 			return err
 		}
-		_ = closeAlive
 		s.mu.Lock()
 		s.emit("obs %s", e.obs())
 		s.mu.Unlock()
 		switch entry {
 		case "H":
-			if !e.holding {
-				e.client.connectMu.Lock()
+			if !e.holding && e.client.connectMu.TryLock() {
 				e.holding = true
 				s.mu.Lock()
 				s.emit("hold")
@@ -809,32 +931,30 @@ func vspRunScenario(line string) (out string) {
 			}
 			return nil
 		case "R":
-			if e.holding {
-				s.mu.Lock()
-				s.emit("unhold")
-				s.mu.Unlock()
-				e.client.connectMu.Unlock()
-				e.holding = false
-			}
+			unhold()
 			return nil
 		}
 		rel := releasable()
 		if entry == "T" || len(rel) == 0 {
 			if blocked {
 				if e.holding && len(rel) == 0 {
-					// only the held lock can be blocking progress
-					s.mu.Lock()
-					s.emit("unhold")
-					s.mu.Unlock()
-					e.client.connectMu.Unlock()
-					e.holding = false
+					unhold() // only the held lock can be blocking progress
 					return nil
 				}
 				if !waitProgress() {
-					return fmt.Errorf("blocked actors made no progress in 8s")
+					return fmt.Errorf("blocked actors made no progress in 9s")
 				}
 			}
 			return nil
+		}
+		if strings.HasPrefix(entry, "@") {
+			for _, a := range rel {
+				if a.spec.ID == entry[1:] {
+					release(a)
+					return nil
+				}
+			}
+			return nil // named actor not releasable now: no-op
 		}
 		i, perr := strconv.Atoi(entry)
 		if perr != nil || i < 0 {
@@ -850,7 +970,7 @@ func vspRunScenario(line string) (out string) {
 		}
 	}
 	// drain
-	for guard := 0; guard < 400; guard++ {
+	for guard := 0; ; guard++ {
 		_, closeAlive, err := s.waitQuiescent()
 		if err != nil {
 			return "HARNESS-ERROR " + err.Error()
@@ -858,11 +978,15 @@ func vspRunScenario(line string) (out string) {
 		if allDone() && !closeAlive && !e.holding {
 			break
 		}
+		if guard >= 400 {
+			return "HARNESS-ERROR drain did not terminate"
+		}
+		if e.holding && len(releasable()) == 0 {
+			unhold()
+			continue
+		}
 		if err := step("0"); err != nil {
 			return "HARNESS-ERROR " + err.Error()
-		}
-		if guard == 399 {
-			return "HARNESS-ERROR drain did not terminate"
 		}
 	}
 	// settled: observe, then marker publish per channel
@@ -871,7 +995,7 @@ func vspRunScenario(line string) (out string) {
 	s.freeRun = true
 	s.mu.Unlock()
 	for _, ch := range e.chans {
-		if _, err := node.Publish(ch, []byte(`{"m":"vspmark-`+ch+`"}`)); err != nil {
+		if _, err := node.Publish(e.real(ch), []byte(`{"m":"vspmark-`+ch+`"}`)); err != nil {
 			return "HARNESS-ERROR publish: " + err.Error()
 		}
 	}
@@ -885,7 +1009,7 @@ func vspRunScenario(line string) (out string) {
 			if time.Now().After(deadline) {
 				return "HARNESS-ERROR sentinel not delivered"
 			}
-			time.Sleep(200 * time.Microsecond)
+			time.Sleep(100 * time.Microsecond)
 		}
 	} else {
 		time.Sleep(300 * time.Microsecond)
@@ -895,19 +1019,27 @@ func vspRunScenario(line string) (out string) {
 	chset := client.ChannelsWithContext()
 	for _, ch := range e.chans {
 		recv = append(recv, fmt.Sprintf("%s:%d", ch, e.tr.count(`vspmark-`+ch+`"`)))
-		if _, ok := chset[ch]; ok {
+		if _, ok := chset[e.real(ch)]; ok {
 			reported = append(reported, ch)
 		}
 	}
 	sort.Strings(reported)
-	// C05 extras: users map, sessions, total hub counters, any presence entry of this client
+	// C05 extras: users map, sessions, hub counters for this scenario's channels
 	cs := node.hub.connShards[index(client.UserID(), numHubShards)]
 	cs.mu.RLock()
-	_, userReg := cs.users[client.UserID()]
+	userReg := false
+	if us, ok := cs.users[client.UserID()]; ok {
+		_, userReg = us[client.uid]
+	}
 	cs.mu.RUnlock()
 	node.hub.sessionsMu.RLock()
 	nsess := len(node.hub.sessions)
 	node.hub.sessionsMu.RUnlock()
+	_, inConns := node.hub.Connections()[client.uid]
+	nsubs := 0
+	for _, ch := range e.chans {
+		nsubs += node.hub.NumSubscribers(e.real(ch))
+	}
 	e.cbMu.Lock()
 	var unsubs []string
 	for _, ch := range e.chans {
@@ -919,9 +1051,9 @@ func vspRunScenario(line string) (out string) {
 	nch := len(client.channels)
 	client.mu.RUnlock()
 	s.mu.Lock()
-	s.emit("final %s | recv=%s reported=%s users=%v sessions=%d numclients=%d numsubs=%d nchan=%d onunsub=%s ondisc=%d keyed=%v",
-		final, strings.Join(recv, ","), strings.Join(reported, ","), userReg, nsess, node.hub.NumClients(),
-		node.hub.NumSubscriptions(), nch, strings.Join(unsubs, ","), ondisc, client.keyed != nil)
+	s.emit("final %s | recv=%s reported=%s users=%v sessions=%d inconns=%v numsubs=%d nchan=%d onunsub=%s ondisc=%d keyed=%v",
+		final, strings.Join(recv, ","), strings.Join(reported, ","), userReg, nsess, inConns,
+		nsubs, nch, strings.Join(unsubs, ","), ondisc, client.keyed != nil)
 	res := strings.Join(s.trace, ";")
 	s.mu.Unlock()
 	return res
